@@ -655,11 +655,16 @@ func runHVS() {
 		hvsDepth, vectors = 3, vectors[:1]
 	}
 	before := r.NumViolations()
-	for _, pw := range vectors {
+	depths := []int{}
+	for vi, pw := range vectors {
 		if r.Expired() {
 			r.NotExhaustive("deadline before the HeightVoteSet search of vector " + vecName(pw))
 			continue
 		}
+		if vi > 0 {
+			hvsDepth-- // the second vector one operation shallower
+		}
+		depths = append(depths, hvsDepth)
 		newHVSJob(pw).explore()
 	}
 	r.Add("hvs_votes_refused_for_unwanted_round", hvsRefusedRound)
@@ -671,9 +676,9 @@ func runHVS() {
 		r.Require(r.Get("hvs_states_with_a_peer_created_round") > 0, "no HeightVoteSet state with a peer-created (catch-up) round")
 		r.Require(hvsRefusedRound > 0, "the catch-up round limit was never hit")
 	}
-	r.Set("hvs_rule", fmt.Sprintf("every history of at most %d operations over: each of 3 validators' vote for A in rounds 1-3 (prevote, precommit) delivered by its own peer, "+
+	r.Set("hvs_rule", fmt.Sprintf("every history of at most %v operations (per vector) over: each of 3 validators' vote for A in rounds 1-3 (prevote, precommit) delivered by its own peer, "+
 		"validator 0's conflicting votes for B delivered by a fourth peer, one vote for round 4 (third unknown round of peer p0), a wrong-height vote for an unknown round, "+
-		"an invalid vote type, SetRound(2), SetRound(3), SetPeerMaj23 for rounds 1 and 2; vectors %v", hvsDepth, vectors))
+		"an invalid vote type, SetRound(2), SetRound(3), SetPeerMaj23 for rounds 1 and 2; SetRound only with increasing rounds; vectors %v", depths, vectors))
 }
 
 func replayHVS(c Case) {
